@@ -1083,5 +1083,340 @@ theorem goodContext_if_false (env : Nat) (L : Lambda) (g : Nat) {E : Expr} (c : 
   obtain ⟨τs, ρs, hp, hs, hm⟩ := h τ ρ N A hi
   exact ⟨τs, ρs, .cond_else (Evals.prim rfl) rfl hp, hs, hm⟩
 
+/-! ### mutual recursion: `even?` / `odd?` -/
+
+/-- `(lambda (n) (if (= n 0) #t (odd? (- n 1))))` and `(lambda (n) (if (= n 0) #f (even? (- n 1))))`:
+`parityLam b other` answers `b` at zero and otherwise calls `other` -/
+def parityLam (b : Bool) (other : String) : Lambda := .mk ⟨["n"], none⟩ []
+  [.cond (.call (.sym "=" none) [.sym "n" none, .prim (.int 0) none] none) (.prim (.bool b) none)
+     (some (.call (.sym other none) [.call (.sym "-" none) [.sym "n" none, .prim (.int 1) none] none] none)) none]
+
+structure ParityEnv (σ : Store) (g : Nat) : Prop where
+  eq : Sees σ g "=" (.builtin .numEq)
+  sub : Sees σ g "-" (.builtin .sub)
+  even : Sees σ g "even?" (.closure (parityLam true "odd?") g)
+  odd : Sees σ g "odd?" (.closure (parityLam false "even?") g)
+
+theorem ParityEnv.step {σ g} (h : ParityEnv σ g) (D : List (String × Value)) (j : Nat) :
+    ParityEnv ((σ.pushFrame g D).bump j) g :=
+  ⟨(h.eq.pushFrame g D).bump j, (h.sub.pushFrame g D).bump j, (h.even.pushFrame g D).bump j,
+   (h.odd.pushFrame g D).bump j⟩
+
+theorem parity_paramDefs (b other) (x : Value) : paramDefs (parityLam b other).formals [x] = [("n", x)] := by
+  simp [paramDefs, parityLam, Lambda.formals, bindList, Store.defsInsert]
+
+/-- both procedures at once, by induction on the count: `(even? N)` is `N % 2 = 0`, `(odd? N)` is
+`N % 2 = 1`, each in ONE run of the trampoline although the two procedures alternate -/
+theorem parity_loop (g env : Nat) : ∀ (N : Nat) (σ : Store), ParityEnv σ g → (N : Int) ≤ 2147483647 →
+    (∃ σ', Applies σ (.closure (parityLam true "odd?") g) [.num (.int N)] env (.ok (.bool (N % 2 == 0))) σ' ∧
+      σ'.maxDepth = max σ.maxDepth (σ.depth + 1)) ∧
+    (∃ σ', Applies σ (.closure (parityLam false "even?") g) [.num (.int N)] env (.ok (.bool (N % 2 == 1))) σ' ∧
+      σ'.maxDepth = max σ.maxDepth (σ.depth + 1)) := by
+  intro N
+  induction N with
+  | zero =>
+    intro σ henv _
+    let D : List (String × Value) := [("n", .num (.int (0 : Nat)))]
+    have htest := Evals.eq_zero (τ := σ.pushFrame g D) (ρ := σ.frames.size) (x := "n") (N := ((0 : Nat) : Int))
+      (henv.eq.from_child rfl) (Store.lookup_pushFrame_here rfl)
+    constructor
+    · refine ⟨(σ.pushFrame g D).bump 1, ?_, rfl⟩
+      refine Applies.closure_value rfl (AppliesScheme.no_defs rfl (by simp [parityLam, Lambda.formals]) ?_)
+      rw [parity_paramDefs]
+      exact EvalsBody.last (EvalsTail.cond_true htest rfl
+        (EvalsTail.other (by intros; exact Expr.noConfusion) (by intros; exact Expr.noConfusion) (Evals.prim rfl)))
+    · refine ⟨(σ.pushFrame g D).bump 1, ?_, rfl⟩
+      refine Applies.closure_value rfl (AppliesScheme.no_defs rfl (by simp [parityLam, Lambda.formals]) ?_)
+      rw [parity_paramDefs]
+      exact EvalsBody.last (EvalsTail.cond_true htest rfl
+        (EvalsTail.other (by intros; exact Expr.noConfusion) (by intros; exact Expr.noConfusion) (Evals.prim rfl)))
+  | succ N ih =>
+    intro σ henv hN
+    let D : List (String × Value) := [("n", .num (.int ((N + 1 : Nat) : Int)))]
+    have htest := Evals.eq_zero (τ := σ.pushFrame g D) (ρ := σ.frames.size) (x := "n") (N := ((N + 1 : Nat) : Int))
+      (henv.eq.from_child rfl) (Store.lookup_pushFrame_here rfl)
+    have hne : (((N + 1 : Nat) : Int) == 0) = false := by
+      simp only [beq_eq_false_iff_ne, ne_eq]; omega
+    rw [hne] at htest
+    have hsubE := Evals.sub_one (τ := (σ.pushFrame g D).bump 1) (ρ := σ.frames.size) (x := "n")
+      (N := ((N + 1 : Nat) : Int)) (lookup_global 1 henv.sub rfl) (lookup_param 1 rfl)
+      (fits_of_bounds (by omega) (by omega))
+    simp only [Store.bump_bump, Nat.max_self] at hsubE
+    have he : ((N + 1 : Nat) : Int) - 1 = (N : Int) := by omega
+    rw [he] at hsubE
+    obtain ⟨⟨σe, hle, hme⟩, ⟨σo, hlo, hmo⟩⟩ := ih ((σ.pushFrame g D).bump 1) (henv.step D 1) (by omega)
+    have hmax : max ((σ.pushFrame g D).bump 1).maxDepth (((σ.pushFrame g D).bump 1).depth + 1) =
+        max σ.maxDepth (σ.depth + 1) := by
+      simp only [Store.bump_maxDepth, Store.bump_depth, Store.pushFrame_depth, Store.pushFrame_maxDepth]; omega
+    have hpar₁ : ((N + 1 : Nat) % 2 == 0) = (N % 2 == 1) := by
+      rcases Nat.mod_two_eq_zero_or_one N with h | h <;> simp [Nat.add_mod, h]
+    have hpar₂ : ((N + 1 : Nat) % 2 == 1) = (N % 2 == 0) := by
+      rcases Nat.mod_two_eq_zero_or_one N with h | h <;> simp [Nat.add_mod, h]
+    constructor
+    · refine ⟨σo, ?_, hmo.trans hmax⟩
+      rw [hpar₁]
+      refine Applies.closure_tail (f := .sym "odd?" none) (tenv := σ.frames.size) rfl
+        (AppliesScheme.no_defs rfl (by simp [parityLam, Lambda.formals]) ?_)
+        (Evals.sym (lookup_global 1 henv.odd rfl)) (EvalsArgs.cons hsubE EvalsArgs.nil) rfl hlo
+      rw [parity_paramDefs]
+      exact EvalsBody.last (EvalsTail.cond_false htest rfl EvalsTail.call)
+    · refine ⟨σe, ?_, hme.trans hmax⟩
+      rw [hpar₂]
+      refine Applies.closure_tail (f := .sym "even?" none) (tenv := σ.frames.size) rfl
+        (AppliesScheme.no_defs rfl (by simp [parityLam, Lambda.formals]) ?_)
+        (Evals.sym (lookup_global 1 henv.even rfl)) (EvalsArgs.cons hsubE EvalsArgs.nil) rfl hle
+      rw [parity_paramDefs]
+      exact EvalsBody.last (EvalsTail.cond_false htest rfl EvalsTail.call)
+
+/-! ### a loop through a procedure parameter -/
+
+/-- `(lambda (f n acc) (if (= n 0) acc (f f (- n 1) (+ acc 1))))`: the callee is the parameter `f` -/
+def hoLam : Lambda := .mk ⟨["f", "n", "acc"], none⟩ []
+  [.cond (.call (.sym "=" none) [.sym "n" none, .prim (.int 0) none] none) (.sym "acc" none)
+     (some (.call (.sym "f" none) [.sym "f" none, .call (.sym "-" none) [.sym "n" none, .prim (.int 1) none] none,
+        .call (.sym "+" none) [.sym "acc" none, .prim (.int 1) none] none] none)) none]
+
+structure ArithEnv (σ : Store) (g : Nat) : Prop where
+  eq : Sees σ g "=" (.builtin .numEq)
+  sub : Sees σ g "-" (.builtin .sub)
+  add : Sees σ g "+" (.builtin .add)
+
+theorem ArithEnv.step {σ g} (h : ArithEnv σ g) (D : List (String × Value)) (j : Nat) :
+    ArithEnv ((σ.pushFrame g D).bump j) g :=
+  ⟨(h.eq.pushFrame g D).bump j, (h.sub.pushFrame g D).bump j, (h.add.pushFrame g D).bump j⟩
+
+theorem ho_paramDefs (x y z : Value) : paramDefs hoLam.formals [x, y, z] = [("f", x), ("n", y), ("acc", z)] := by
+  simp [paramDefs, hoLam, Lambda.formals, bindList, Store.defsInsert]
+
+theorem ho_loop (g env : Nat) : ∀ (N : Nat) (A : Int) (σ : Store), ArithEnv σ g →
+    (N : Int) ≤ 2147483647 → -2147483648 ≤ A → A + N ≤ 2147483647 →
+    ∃ σ', Applies σ (.closure hoLam g) [.closure hoLam g, .num (.int N), .num (.int A)] env
+        (.ok (.num (.int (A + N)))) σ' ∧ σ'.maxDepth = max σ.maxDepth (σ.depth + 1) := by
+  intro N
+  induction N with
+  | zero =>
+    intro A σ henv _ hA hAN
+    let D : List (String × Value) := [("f", .closure hoLam g), ("n", .num (.int (0 : Nat))), ("acc", .num (.int A))]
+    have htest := Evals.eq_zero (τ := σ.pushFrame g D) (ρ := σ.frames.size) (x := "n") (N := ((0 : Nat) : Int))
+      (henv.eq.from_child rfl) (Store.lookup_pushFrame_here rfl)
+    refine ⟨(σ.pushFrame g D).bump 1, ?_, rfl⟩
+    have : A + ((0 : Nat) : Int) = A := by simp
+    rw [this]
+    refine Applies.closure_value rfl (AppliesScheme.no_defs rfl (by simp [hoLam, Lambda.formals]) ?_)
+    rw [ho_paramDefs]
+    exact EvalsBody.last (EvalsTail.cond_true htest rfl
+      (EvalsTail.other (by intros; exact Expr.noConfusion) (by intros; exact Expr.noConfusion)
+        (Evals.sym (lookup_param 1 rfl))))
+  | succ N ih =>
+    intro A σ henv hN hA hAN
+    let D : List (String × Value) :=
+      [("f", .closure hoLam g), ("n", .num (.int ((N + 1 : Nat) : Int))), ("acc", .num (.int A))]
+    have htest := Evals.eq_zero (τ := σ.pushFrame g D) (ρ := σ.frames.size) (x := "n") (N := ((N + 1 : Nat) : Int))
+      (henv.eq.from_child rfl) (Store.lookup_pushFrame_here rfl)
+    have hne : (((N + 1 : Nat) : Int) == 0) = false := by
+      simp only [beq_eq_false_iff_ne, ne_eq]; omega
+    rw [hne] at htest
+    have hsubE := Evals.sub_one (τ := (σ.pushFrame g D).bump 1) (ρ := σ.frames.size) (x := "n")
+      (N := ((N + 1 : Nat) : Int)) (lookup_global 1 henv.sub rfl) (lookup_param 1 rfl)
+      (fits_of_bounds (by omega) (by omega))
+    have haddE := Evals.add_one (τ := ((σ.pushFrame g D).bump 1).bump 1) (ρ := σ.frames.size) (x := "acc") (A := A)
+      (by simp only [Store.bump_bump]; exact lookup_global _ henv.add rfl)
+      (by simp only [Store.bump_bump]; exact lookup_param _ rfl)
+      (fits_of_bounds (by omega) (by omega)) (fits_of_bounds (by omega) (by omega))
+    simp only [Store.bump_bump, Nat.max_self] at hsubE haddE
+    have he : ((N + 1 : Nat) : Int) - 1 = (N : Int) := by omega
+    rw [he] at hsubE
+    obtain ⟨σ', hl, hm⟩ := ih (A + 1) ((σ.pushFrame g D).bump 1) (henv.step D 1) (by omega) (by omega) (by omega)
+    refine ⟨σ', ?_, ?_⟩
+    · have he' : A + ((N + 1 : Nat) : Int) = A + 1 + (N : Int) := by omega
+      rw [he']
+      refine Applies.closure_tail (f := .sym "f" none) (tenv := σ.frames.size) rfl
+        (AppliesScheme.no_defs rfl (by simp [hoLam, Lambda.formals]) ?_)
+        (Evals.sym (lookup_param 1 rfl))
+        (EvalsArgs.cons (Evals.sym (s := "f") (l := none) (lookup_param 1 rfl))
+          (EvalsArgs.cons hsubE (EvalsArgs.cons haddE EvalsArgs.nil)))
+        rfl hl
+      rw [ho_paramDefs]
+      exact EvalsBody.last (EvalsTail.cond_false htest rfl EvalsTail.call)
+    · rw [hm]
+      simp only [Store.bump_maxDepth, Store.bump_depth, Store.pushFrame_depth, Store.pushFrame_maxDepth]
+      omega
+
+/-! ### a loop with a rest parameter -/
+
+/-- `(lambda (n . rest) (if (= n 0) (car rest) (loop (- n 1) (+ (car rest) 1))))` -/
+def varLam : Lambda := .mk ⟨["n"], some "rest"⟩ []
+  [.cond (.call (.sym "=" none) [.sym "n" none, .prim (.int 0) none] none)
+     (.call (.sym "car" none) [.sym "rest" none] none)
+     (some (.call (.sym "loop" none) [.call (.sym "-" none) [.sym "n" none, .prim (.int 1) none] none,
+        .call (.sym "+" none) [.call (.sym "car" none) [.sym "rest" none] none, .prim (.int 1) none] none] none)) none]
+
+structure VarEnv (σ : Store) (g : Nat) : Prop where
+  eq : Sees σ g "=" (.builtin .numEq)
+  sub : Sees σ g "-" (.builtin .sub)
+  add : Sees σ g "+" (.builtin .add)
+  car : Sees σ g "car" (.builtin .car)
+  loop : Sees σ g "loop" (.closure varLam g)
+
+theorem VarEnv.step {σ g} (h : VarEnv σ g) (D : List (String × Value)) (j : Nat) :
+    VarEnv ((σ.pushFrame g D).bump j) g :=
+  ⟨(h.eq.pushFrame g D).bump j, (h.sub.pushFrame g D).bump j, (h.add.pushFrame g D).bump j,
+   (h.car.pushFrame g D).bump j, (h.loop.pushFrame g D).bump j⟩
+
+theorem var_paramDefs (x y : Value) :
+    paramDefs varLam.formals [x, y] = [("n", x), ("rest", .pair y .nil)] := by
+  simp [paramDefs, varLam, Lambda.formals, bindList, Store.defsInsert, Value.ofList]
+
+theorem var_loop (g env : Nat) : ∀ (N : Nat) (A : Int) (σ : Store), VarEnv σ g →
+    (N : Int) ≤ 2147483647 → -2147483648 ≤ A → A + N ≤ 2147483647 →
+    ∃ σ', Applies σ (.closure varLam g) [.num (.int N), .num (.int A)] env (.ok (.num (.int (A + N)))) σ' ∧
+      σ'.maxDepth = max σ.maxDepth (σ.depth + 1) := by
+  intro N
+  induction N with
+  | zero =>
+    intro A σ henv _ hA hAN
+    let D : List (String × Value) := [("n", .num (.int (0 : Nat))), ("rest", .pair (.num (.int A)) .nil)]
+    have htest := Evals.eq_zero (τ := σ.pushFrame g D) (ρ := σ.frames.size) (x := "n") (N := ((0 : Nat) : Int))
+      (henv.eq.from_child rfl) (Store.lookup_pushFrame_here rfl)
+    refine ⟨(σ.pushFrame g D).bump 1, ?_, rfl⟩
+    have : A + ((0 : Nat) : Int) = A := by simp
+    rw [this]
+    -- `(car rest)` is itself a call in tail position: the loop continues with the native `car`
+    refine Applies.closure_tail (f := .sym "car" none) (targs := [.sym "rest" none]) (tenv := σ.frames.size) rfl
+      (AppliesScheme.no_defs rfl (by simp [varLam, Lambda.formals]) ?_)
+      (Evals.sym (lookup_global 1 henv.car rfl))
+      (EvalsArgs.cons (Evals.sym (s := "rest") (l := none) (v := .pair (.num (.int A)) .nil) (lookup_param 1 rfl))
+        EvalsArgs.nil) rfl
+      (Applies.builtin (b := .car) (args := [.pair (.num (.int A)) .nil]) (by decide) rfl rfl (by simp))
+    rw [var_paramDefs]
+    exact EvalsBody.last (EvalsTail.cond_true htest rfl EvalsTail.call)
+  | succ N ih =>
+    intro A σ henv hN hA hAN
+    let D : List (String × Value) :=
+      [("n", .num (.int ((N + 1 : Nat) : Int))), ("rest", .pair (.num (.int A)) .nil)]
+    have htest := Evals.eq_zero (τ := σ.pushFrame g D) (ρ := σ.frames.size) (x := "n") (N := ((N + 1 : Nat) : Int))
+      (henv.eq.from_child rfl) (Store.lookup_pushFrame_here rfl)
+    have hne : (((N + 1 : Nat) : Int) == 0) = false := by
+      simp only [beq_eq_false_iff_ne, ne_eq]; omega
+    rw [hne] at htest
+    have hsubE := Evals.sub_one (τ := (σ.pushFrame g D).bump 1) (ρ := σ.frames.size) (x := "n")
+      (N := ((N + 1 : Nat) : Int)) (lookup_global 1 henv.sub rfl) (lookup_param 1 rfl)
+      (fits_of_bounds (by omega) (by omega))
+    have hcarE : Evals (((σ.pushFrame g D).bump 1).bump 1) σ.frames.size
+        (.call (.sym "car" none) [.sym "rest" none] none) (.ok (.num (.int A)))
+        ((((σ.pushFrame g D).bump 1).bump 1).bump 1) :=
+      Evals.call_builtin (b := .car) (by simp only [Store.bump_bump]; exact lookup_global _ henv.car rfl) (by decide)
+        (EvalsArgs.cons (Evals.sym (s := "rest") (l := none) (v := .pair (.num (.int A)) .nil)
+          (by simp only [Store.bump_bump]; exact lookup_param _ rfl)) EvalsArgs.nil) rfl (fun τ' => rfl)
+    have haddE : Evals (((σ.pushFrame g D).bump 1).bump 1) σ.frames.size
+        (.call (.sym "+" none) [.call (.sym "car" none) [.sym "rest" none] none, .prim (.int 1) none] none)
+        (.ok (.num (.int (A + 1)))) (((((σ.pushFrame g D).bump 1).bump 1).bump 1).bump 1) :=
+      Evals.call_builtin (b := .add) (by simp only [Store.bump_bump]; exact lookup_global _ henv.add rfl) (by decide)
+        (EvalsArgs.cons hcarE (EvalsArgs.cons (Evals.int_lit 1) EvalsArgs.nil)) rfl
+        (fun τ' => applyPure_add τ' (fits_of_bounds (by omega) (by omega)) (fits_of_bounds (by omega) (by omega)))
+    simp only [Store.bump_bump, Nat.max_self] at hsubE haddE
+    have he : ((N + 1 : Nat) : Int) - 1 = (N : Int) := by omega
+    rw [he] at hsubE
+    obtain ⟨σ', hl, hm⟩ := ih (A + 1) ((σ.pushFrame g D).bump 1) (henv.step D 1) (by omega) (by omega) (by omega)
+    refine ⟨σ', ?_, ?_⟩
+    · have he' : A + ((N + 1 : Nat) : Int) = A + 1 + (N : Int) := by omega
+      rw [he']
+      refine Applies.closure_tail (f := .sym "loop" none) (tenv := σ.frames.size) rfl
+        (AppliesScheme.no_defs rfl (by simp [varLam, Lambda.formals]) ?_)
+        (Evals.sym (lookup_global 1 henv.loop rfl))
+        (EvalsArgs.cons hsubE (EvalsArgs.cons haddE EvalsArgs.nil)) rfl hl
+      rw [var_paramDefs]
+      exact EvalsBody.last (EvalsTail.cond_false htest rfl EvalsTail.call)
+    · rw [hm]
+      simp only [Store.bump_maxDepth, Store.bump_depth, Store.pushFrame_depth, Store.pushFrame_maxDepth]
+      omega
+
+/-! ### `apply` in tail position -/
+
+/-- `(lambda (n acc) (if (= n 0) acc (apply loop (- n 1) (cons (+ acc 1) '()))))` -/
+def appLam : Lambda := .mk ⟨["n", "acc"], none⟩ []
+  [.cond (.call (.sym "=" none) [.sym "n" none, .prim (.int 0) none] none) (.sym "acc" none)
+     (some (.call (.sym "apply" none) [.sym "loop" none,
+        .call (.sym "-" none) [.sym "n" none, .prim (.int 1) none] none,
+        .call (.sym "cons" none) [.call (.sym "+" none) [.sym "acc" none, .prim (.int 1) none] none,
+          .quote (.nil none) none] none] none)) none]
+
+structure AppEnv (σ : Store) (g : Nat) : Prop where
+  eq : Sees σ g "=" (.builtin .numEq)
+  sub : Sees σ g "-" (.builtin .sub)
+  add : Sees σ g "+" (.builtin .add)
+  cons : Sees σ g "cons" (.builtin .cons)
+  apply : Sees σ g "apply" (.builtin .apply)
+  loop : Sees σ g "loop" (.closure appLam g)
+
+theorem AppEnv.step {σ g} (h : AppEnv σ g) (D : List (String × Value)) (j : Nat) :
+    AppEnv ((σ.pushFrame g D).bump j) g :=
+  ⟨(h.eq.pushFrame g D).bump j, (h.sub.pushFrame g D).bump j, (h.add.pushFrame g D).bump j,
+   (h.cons.pushFrame g D).bump j, (h.apply.pushFrame g D).bump j, (h.loop.pushFrame g D).bump j⟩
+
+theorem app_paramDefs (x y : Value) : paramDefs appLam.formals [x, y] = [("n", x), ("acc", y)] := by
+  simp [paramDefs, appLam, Lambda.formals, bindList, Store.defsInsert]
+
+theorem app_loop (g env : Nat) : ∀ (N : Nat) (A : Int) (σ : Store), AppEnv σ g →
+    (N : Int) ≤ 2147483647 → -2147483648 ≤ A → A + N ≤ 2147483647 →
+    ∃ σ', Applies σ (.closure appLam g) [.num (.int N), .num (.int A)] env (.ok (.num (.int (A + N)))) σ' ∧
+      σ'.maxDepth = max σ.maxDepth (σ.depth + 1) := by
+  intro N
+  induction N with
+  | zero =>
+    intro A σ henv _ hA hAN
+    let D : List (String × Value) := [("n", .num (.int (0 : Nat))), ("acc", .num (.int A))]
+    have htest := Evals.eq_zero (τ := σ.pushFrame g D) (ρ := σ.frames.size) (x := "n") (N := ((0 : Nat) : Int))
+      (henv.eq.from_child rfl) (Store.lookup_pushFrame_here rfl)
+    refine ⟨(σ.pushFrame g D).bump 1, ?_, rfl⟩
+    have : A + ((0 : Nat) : Int) = A := by simp
+    rw [this]
+    refine Applies.closure_value rfl (AppliesScheme.no_defs rfl (by simp [appLam, Lambda.formals]) ?_)
+    rw [app_paramDefs]
+    exact EvalsBody.last (EvalsTail.cond_true htest rfl
+      (EvalsTail.other (by intros; exact Expr.noConfusion) (by intros; exact Expr.noConfusion)
+        (Evals.sym (lookup_param 1 rfl))))
+  | succ N ih =>
+    intro A σ henv hN hA hAN
+    let D : List (String × Value) := [("n", .num (.int ((N + 1 : Nat) : Int))), ("acc", .num (.int A))]
+    have htest := Evals.eq_zero (τ := σ.pushFrame g D) (ρ := σ.frames.size) (x := "n") (N := ((N + 1 : Nat) : Int))
+      (henv.eq.from_child rfl) (Store.lookup_pushFrame_here rfl)
+    have hne : (((N + 1 : Nat) : Int) == 0) = false := by
+      simp only [beq_eq_false_iff_ne, ne_eq]; omega
+    rw [hne] at htest
+    have hsubE := Evals.sub_one (τ := (σ.pushFrame g D).bump 1) (ρ := σ.frames.size) (x := "n")
+      (N := ((N + 1 : Nat) : Int)) (lookup_global 1 henv.sub rfl) (lookup_param 1 rfl)
+      (fits_of_bounds (by omega) (by omega))
+    have haddE := Evals.add_one (τ := ((σ.pushFrame g D).bump 1).bump 1) (ρ := σ.frames.size) (x := "acc") (A := A)
+      (by simp only [Store.bump_bump]; exact lookup_global _ henv.add rfl)
+      (by simp only [Store.bump_bump]; exact lookup_param _ rfl)
+      (fits_of_bounds (by omega) (by omega)) (fits_of_bounds (by omega) (by omega))
+    have hconsE : Evals (((σ.pushFrame g D).bump 1).bump 1) σ.frames.size
+        (.call (.sym "cons" none) [.call (.sym "+" none) [.sym "acc" none, .prim (.int 1) none] none,
+          .quote (.nil none) none] none)
+        (.ok (.pair (.num (.int (A + 1))) .nil)) (((((σ.pushFrame g D).bump 1).bump 1).bump 1).bump 1) :=
+      Evals.call_builtin (b := .cons) (by simp only [Store.bump_bump]; exact lookup_global _ henv.cons rfl) (by decide)
+        (EvalsArgs.cons haddE (EvalsArgs.cons (Evals.quote rfl (by simp)) EvalsArgs.nil)) rfl (fun τ' => rfl)
+    simp only [Store.bump_bump, Nat.max_self] at hsubE hconsE
+    have he : ((N + 1 : Nat) : Int) - 1 = (N : Int) := by omega
+    rw [he] at hsubE
+    obtain ⟨σ', hl, hm⟩ := ih (A + 1) ((σ.pushFrame g D).bump 1) (henv.step D 1) (by omega) (by omega) (by omega)
+    refine ⟨σ', ?_, ?_⟩
+    · have he' : A + ((N + 1 : Nat) : Int) = A + 1 + (N : Int) := by omega
+      rw [he']
+      -- the pending call's operator is the native `apply`: the loop continues with it, and it
+      -- continues the loop with the procedure it was handed
+      refine Applies.closure_tail (f := .sym "apply" none) (tenv := σ.frames.size) rfl
+        (AppliesScheme.no_defs rfl (by simp [appLam, Lambda.formals]) ?_)
+        (Evals.sym (lookup_global 1 henv.apply rfl))
+        (EvalsArgs.cons (Evals.sym (s := "loop") (l := none) (lookup_global 1 henv.loop rfl))
+          (EvalsArgs.cons hsubE (EvalsArgs.cons hconsE EvalsArgs.nil))) rfl
+        (Applies.apply (by simp) rfl hl)
+      rw [app_paramDefs]
+      exact EvalsBody.last (EvalsTail.cond_false htest rfl EvalsTail.call)
+    · rw [hm]
+      simp only [Store.bump_maxDepth, Store.bump_depth, Store.pushFrame_depth, Store.pushFrame_maxDepth]
+      omega
+
 end Eval
 end Ruschm
